@@ -44,6 +44,7 @@ structure Conn where
   cl : Cl := {}
   lc : LC := ⟨true, false, 0⟩
   dropped : Bool := false
+  stalled : Bool := false   -- peer stopped reading, tiny pipe: the (large) writes the scripts make fail, nothing else happens to it
 
 structure DS where
   cfg : Cfg := ⟨true⟩
@@ -119,7 +120,7 @@ def finishOpNoPump (s : DS) (evs : List String) : DS × List String :=
 0 bytes) and closed, if a failed write has not closed it already -/
 def finishOp (s : DS) (evs : List String) : DS × List String :=
   let s' := { s with conns := s.conns.map fun c =>
-    if c.cl.peerGone && c.cl.isOpen && hasServerSide c then { c with cl := closeCl c.cl } else c }
+    if c.cl.peerGone && !c.stalled && c.cl.isOpen && hasServerSide c then { c with cl := closeCl c.cl } else c }
   finishOpNoPump s' evs
 
 /-- deliver the messages the server wrote to each connection: reference peers see them (`tx`),
@@ -211,6 +212,13 @@ def dstep (s : DS) (toks : List String) : DS × List String :=
         if id ≥ 16 || (s.conn id).isSome then badOp s else
         finishOp { s with conns := insertConn { id := id, kind := if k == "raw" then .raw else .rawpre,
                                                 cl := { normal := k == "raw" } } s.conns } []
+      else if k == "stall" then
+        match s.conn id with
+        | some c =>
+          if c.kind == .raw && !c.dropped && srvOpen c then
+            finishOp (s.setConn { c with cl := { c.cl with peerGone := true }, dropped := true, stalled := true }) []
+          else badOp s
+        | none => badOp s
       else if k == "kill" then
         match s.conn id with
         | some c =>
